@@ -1,7 +1,109 @@
-(* API commands for the Tex package (stub until the package lands). *)
-From Coq Require Import ZArith List.
-From Labella Require Import Extract.Codec.
+(* API commands 10..99: TeX text conversion (C19), model Text/Tex.v.
+   The decomposition table of the model is a Section variable; every call
+   carries the table entries it needs as an association list
+     table := len (c  nfields f1..fn  tagged)*
+   (absent code point = empty unicodedata.decomposition), and the API
+   instantiates the variable with `lookup` in that list. *)
+From Coq Require Import ZArith NArith List Bool.
+From Labella Require Import Extract.Codec Text.Tex Text.Utils.
 Import ListNotations.
 Open Scope Z_scope.
 
-Definition api_tex (cmd : Z) (a : list Z) : list Z := bad_input.
+Definition d_text : dec (list N) := d_list d_n.
+Definition d_table : dec (list (N * (list N * bool))) :=
+  d_list (d_pair d_n (d_pair d_text d_bool)).
+Definition e_text (l : list N) : list Z := e_list e_n l.
+
+(* 10: table s -> uni2tex s *)
+Definition api_uni2tex (a : list Z) : list Z :=
+  match d_pair d_table d_text a with
+  | Some ((tbl, s), _) => e_text (uni2tex (lookup tbl) s)
+  | None => bad_input
+  end.
+
+(* 11: table [s1..sn] -> [uni2tex s1 .. uni2tex sn] *)
+Definition api_uni2tex_many (a : list Z) : list Z :=
+  match d_pair d_table (d_list d_text) a with
+  | Some ((tbl, ss), _) => e_list e_text (map (uni2tex (lookup tbl)) ss)
+  | None => bad_input
+  end.
+
+(* 12: table ctx lo n -> uni2tex of the n strings made from the code points
+   lo .. lo+n-1 in context ctx: 0 alone, 1 leading (c x), 2 trailing (x c) *)
+Definition in_context (ctx : N) (c : N) : list N :=
+  match ctx with
+  | 0%N => [c]
+  | 1%N => [c; 120%N]
+  | _ => [120%N; c]
+  end.
+Definition api_uni2tex_block (a : list Z) : list Z :=
+  match d_pair d_table (d_pair d_n (d_pair d_n d_nat)) a with
+  | Some ((tbl, (ctx, (lo, n))), _) =>
+      e_list e_text
+        (map (fun k => uni2tex (lookup tbl) (in_context ctx (lo + N.of_nat k)%N)) (seq 0 n))
+  | None => bad_input
+  end.
+
+(* 13: s -> tex2uni s  (the string-level reader; no table) *)
+Definition api_tex2uni (a : list Z) : list Z :=
+  match d_text a with
+  | Some (s, _) => e_text (tex2uni s)
+  | None => bad_input
+  end.
+
+(* 14: table s -> expand s ; tokens of uni2tex_tok s as (0 c | 1 cmd base) ;
+   tex2uni (uni2tex s) *)
+Definition e_tok (t : tok) : list Z :=
+  match t with
+  | Plain c => [0; Z.of_N c]
+  | Accent cmd b => [1; Z.of_N cmd; Z.of_N b]
+  end.
+Definition api_expand (a : list Z) : list Z :=
+  match d_pair d_table d_text a with
+  | Some ((tbl, s), _) =>
+      e_text (expand (lookup tbl) s) ++ e_list e_tok (uni2tex_tok (lookup tbl) s)
+      ++ e_text (tex2uni (uni2tex (lookup tbl) s))
+  | None => bad_input
+  end.
+
+(* 15: table [opt text] -> the \def\text<ID>{..} lines (timeline.py:645-653) *)
+Definition api_header (a : list Z) : list Z :=
+  match d_pair d_table (d_list (d_opt d_text)) a with
+  | Some ((tbl, ts), _) => e_list e_text (header_text (lookup tbl) int2name ts)
+  | None => bad_input
+  end.
+
+(* 16: table -> table_ok (lookup table)   (sent with the entries of 0..127) *)
+Definition api_table_ok (a : list Z) : list Z :=
+  match d_table a with
+  | Some (tbl, _) => e_bool (table_ok (lookup tbl))
+  | None => bad_input
+  end.
+
+(* 17: table d -> depth_ok_b table d   (sent with the complete table) *)
+Definition api_depth_ok (a : list Z) : list Z :=
+  match d_pair d_table d_nat a with
+  | Some ((tbl, d), _) => e_bool (depth_ok_b tbl d)
+  | None => bad_input
+  end.
+
+(* 18: table fontsize preamble text -> get_latex_fontdoc (tex.py:62-77) *)
+Definition api_fontdoc (a : list Z) : list Z :=
+  match d_pair d_table (d_pair d_text (d_pair d_text d_text)) a with
+  | Some ((tbl, (fs, (pre, txt))), _) => e_text (fontdoc (lookup tbl) fs pre txt)
+  | None => bad_input
+  end.
+
+Definition api_tex (cmd : Z) (a : list Z) : list Z :=
+  match cmd with
+  | 10 => api_uni2tex a
+  | 11 => api_uni2tex_many a
+  | 12 => api_uni2tex_block a
+  | 13 => api_tex2uni a
+  | 14 => api_expand a
+  | 15 => api_header a
+  | 16 => api_table_ok a
+  | 17 => api_depth_ok a
+  | 18 => api_fontdoc a
+  | _ => bad_input
+  end.
